@@ -226,11 +226,13 @@ def hexLenient : Bytes → Bytes
   | _ => []
 
 /-- `common.FromHex`: strip `0x`/`0X`, left-pad an odd number of digits with '0', decode leniently -/
+def strip0x : Bytes → Bytes
+  | 48 :: 120 :: r => r
+  | 48 :: 88 :: r => r
+  | s => s
+
 def fromHexGo (s : Bytes) : Bytes :=
-  let s := match s with
-    | 48 :: 120 :: r => r
-    | 48 :: 88 :: r => r
-    | _ => s
+  let s := strip0x s
   hexLenient (if s.length % 2 = 1 then 48 :: s else s)
 
 /-- `common.BytesToAddress(b).Bytes()` -/
@@ -387,6 +389,28 @@ def dec3 (d : Nat) : Bytes :=
 /-- Bitcoin OP_RETURN text: `0x<40 lower-case hex digits>_<destination domain id>` -/
 def btcText (addr : Bytes) (dst : Nat) : Bytes := [48, 120] ++ hexBytes addr ++ [95] ++ dec3 dst
 
+/-- strict, case-insensitive hex decoding: every character must be a hex digit (reference; the code's decoder is lenient) -/
+def hexStrict : Bytes → Option Bytes
+  | [] => some []
+  | [_] => none
+  | a :: b :: rest =>
+    match hexNib a, hexNib b, hexStrict rest with
+    | some x, some y, some r => some (UInt8.ofNat (x * 16 + y) :: r)
+    | _, _, _ => none
+
+/-- the Bitcoin OP_RETURN text as a RELATION: `<EVM address>_<destination domain>` where the address is 40 hex digits of
+    either case with an optional `0x`/`0X`, and the domain is a decimal uint8 (leading zeros allowed). Returns the
+    20 address bytes and the domain. (`Src.btcText` is the canonical spelling of the same pair.) -/
+def parseBtcText (text : Bytes) : Option (Bytes × Nat) :=
+  match splitBy 95 text with
+  | [p0, p1] =>
+    match hexStrict (strip0x p0) with
+    | some addr =>
+      if addr.length = 20 ∧ p1 ≠ [] ∧ p1.all (fun c => 48 ≤ c.toNat ∧ c.toNat ≤ 57) = true ∧ decValue p1 < 256
+      then some (addr, decValue p1) else none
+    | none => none
+  | _ => none
+
 end Src
 
 namespace Canon
@@ -437,6 +461,13 @@ def Semi.WF (v : Semi) : Prop :=
 
 instance (v : Semi) : Decidable v.WF := by unfold Semi.WF; infer_instance
 
+/-- fungible deposit data followed by 1..32 stray bytes -/
+def ShortTailWF (d0 : Fungible) (t : Bytes) : Prop :=
+  d0.amount < 2 ^ 256 ∧ d0.recipient.length < 2 ^ 63 ∧ d0.opt = none ∧ 1 ≤ t.length ∧ t.length ≤ 32 ∧
+  84 ≤ 64 + d0.recipient.length + t.length
+
+instance (d0 : Fungible) (t : Bytes) : Decidable (ShortTailWF d0 t) := by unfold ShortTailWF; infer_instance
+
 /-- handler response: absent, or at least one word whose first word is the converted amount -/
 def RespWF (resp : Bytes) : Prop := resp = [] ∨ 32 ≤ resp.length
 
@@ -470,7 +501,18 @@ def expected (i : Input) : Option Out :=
         if d.opt = none then
           if a / 10 ^ 10 < 2 ^ 64 then some (.ok ⟨i.id, .btc (a / 10 ^ 10) d.recipient, none⟩) else some .errDst
         else some .errDst
-    else none
+    else
+      -- a tail of 1..32 bytes cannot hold a fee word and a message byte: it is not an optional message and is ignored
+      let n := beToNat ((i.cd.drop 32).take 32)
+      let d0 : Fungible := ⟨beToNat (i.cd.take 32), (i.cd.drop 64).take n, none⟩
+      let t := i.cd.drop (64 + n)
+      if Src.fungible d0 ++ t = i.cd ∧ ShortTailWF d0 t ∧ RespWF i.resp then
+        let a := effAmount d0.amount i.resp
+        match i.dk with
+        | .evm => some (.ok ⟨i.id, .evm (Canon.evmFungible a d0.recipient none), none⟩)
+        | .sub => some (.ok ⟨i.id, .evm (Canon.subFungible a d0.recipient), none⟩)
+        | .btc => if a / 10 ^ 10 < 2 ^ 64 then some (.ok ⟨i.id, .btc (a / 10 ^ 10) d0.recipient, none⟩) else some .errDst
+      else none
   | .sub =>
     let d := parseFungible i.cd
     if Src.fungible d = i.cd ∧ d.WF ∧ d.opt = none ∧ i.num = 0 then
@@ -485,8 +527,9 @@ def expected (i : Input) : Option Out :=
     let token := beToNat (i.cd.take 32)
     let r := (i.cd.drop 64).take n
     let md := (i.cd.drop (96 + n)).take m
-    if Src.nft token r md = i.cd ∧ NftWF token r md ∧ i.dk = .evm then
-      some (.ok ⟨i.id, .evm (Canon.nft token r md), none⟩)
+    if Src.nft token r md = i.cd ∧ NftWF token r md then
+      -- only an EVM destination takes non-fungible transfers; the others refuse the message type
+      if i.dk = .evm then some (.ok ⟨i.id, .evm (Canon.nft token r md), none⟩) else some .errDst
     else none
   | .generic =>
     let fl := beToNat ((i.cd.drop 32).take 2)
@@ -497,27 +540,25 @@ def expected (i : Input) : Option Out :=
     let dep := (i.cd.drop (36 + fl + cl)).take dl
     let ex := i.cd.drop (36 + fl + cl + dl)
     let fee := beToNat (i.cd.take 32)
-    if Src.generic fee fs ca dep ex = i.cd ∧ GenericWF fee fs ca dep ex ∧ i.dk = .evm then
-      some (.ok ⟨i.id, .evm (Canon.generic fee fs ca dep ex), some (fee % 2 ^ 64)⟩)
+    if Src.generic fee fs ca dep ex = i.cd ∧ GenericWF fee fs ca dep ex then
+      if i.dk = .evm then some (.ok ⟨i.id, .evm (Canon.generic fee fs ca dep ex), some (fee % 2 ^ 64)⟩) else some .errDst
     else none
   | .erc1155 =>
     match abiDecode1155 i.cd with
     | none => none
     | some v =>
-      if abiEncode1155 v = i.cd ∧ v.WF ∧ i.dk = .evm then some (.ok ⟨i.id, .evm (abiEncode1155 v), none⟩) else none
+      -- decode-based: whatever layout the depositor's ABI encoder chose (tail order, gaps), the values geth decodes are
+      -- the deposit; the proposal carries their canonical encoding. A recipient that is not an EVM address is refused.
+      if i.dk = .evm ∧ v.recipient.length = 20 then some (.ok ⟨i.id, .evm (abiEncode1155 v), none⟩) else some .errDst
   | .btc =>
-    match splitBy 95 i.cd with
-    | [p0, p1] =>
-      let addr := fromHexGo p0
-      let dst := decValue p1
-      if Src.btcText addr dst = i.cd ∧ addr.length = 20 ∧ dst < 256 then
-        let id : Ident := ⟨i.id.src, dst, i.id.nonce, i.id.rid⟩
-        match i.dk with
-        | .evm => if i.num * 10 ^ 10 < 2 ^ 256 then some (.ok ⟨id, .evm (Canon.evmFungible (i.num * 10 ^ 10) addr none), none⟩) else none
-        | .sub => if i.num * 10 ^ 10 < 2 ^ 256 then some (.ok ⟨id, .evm (Canon.subFungible (i.num * 10 ^ 10) addr), none⟩) else none
-        | .btc => if i.num < 2 ^ 64 then some (.ok ⟨id, .btc i.num addr, none⟩) else some .errDst
-      else none
-    | _ => none
+    match Src.parseBtcText i.cd with
+    | some (addr, dst) =>
+      let id : Ident := ⟨i.id.src, dst, i.id.nonce, i.id.rid⟩
+      match i.dk with
+      | .evm => if i.num * 10 ^ 10 < 2 ^ 256 then some (.ok ⟨id, .evm (Canon.evmFungible (i.num * 10 ^ 10) addr none), none⟩) else none
+      | .sub => if i.num * 10 ^ 10 < 2 ^ 256 then some (.ok ⟨id, .evm (Canon.subFungible (i.num * 10 ^ 10) addr), none⟩) else none
+      | .btc => if i.num < 2 ^ 64 then some (.ok ⟨id, .btc i.num addr, none⟩) else some .errDst
+    | none => none
 
 /-- what C01 demands of a destination handler on a message whose fields fit the destination wire format: every length
     word / length byte carries the FULL length of the field that follows and the field bytes follow unaltered.
